@@ -114,6 +114,9 @@ fn mat(rows: &[Vec<f64>]) -> Array2<f64> {
 fn es<E: std::fmt::Display>(e: E) -> String {
     format!("{}", e)
 }
+fn jopt<T: std::fmt::Debug>(o: &Option<T>) -> String {
+    match o { Some(v) => format!("{:?}", v), None => "null".into() }
+}
 fn c(name: &str, text: String) -> (String, String) {
     (name.to_string(), text)
 }
@@ -153,6 +156,7 @@ fn tree_scenarios(r: &mut Sm64, count: usize, v: &mut Vec<Scn>, modal: &mut Vec<
                 // all rows identical, every class equally often: the root is one big tie
                 let p: Vec<f64> = (0..d).map(|_| r.range(-2, 2) as f64).collect();
                 for _ in 0..per { for l in &labs { rows.push(p.clone()); y.push(*l); } }
+                if r.chance(0.3) { w = Some(vec![0.5f32; rows.len()]); }
             }
             1 => {
                 // a few distinct points, each duplicated once per class (ties in every leaf)
@@ -199,8 +203,8 @@ fn tree_scenarios(r: &mut Sm64, count: usize, v: &mut Vec<Scn>, modal: &mut Vec<
         let max_depth = *r.pick(&[None, None, Some(1usize), Some(2), Some(3)]);
         let mws = *r.pick(&[2.0f32, 2.0, 4.0]);
         let desc = format!(
-            "{{\"estimator\": \"DecisionTree\", \"kind\": {}, \"classes\": {:?}, \"split_quality\": {}, \"max_depth\": {:?}, \"min_weight_split\": {}, \"X\": {:?}, \"y\": {:?}, \"weights\": {:?}}}",
-            kind, labs, jstr(if gini { "gini" } else { "entropy" }), max_depth, mws, rows, y, w
+            "{{\"estimator\": \"DecisionTree\", \"kind\": {}, \"classes\": {:?}, \"split_quality\": {}, \"max_depth\": {}, \"min_weight_split\": {}, \"X\": {:?}, \"y\": {:?}, \"weights\": {}}}",
+            kind, labs, jstr(if gini { "gini" } else { "entropy" }), jopt(&max_depth), mws, rows, y, jopt(&w)
         );
         if kind <= 1 || kind == 3 { modal.push((x.clone(), ya.clone(), wa.clone(), desc.clone())); }
         let f: Run = Box::new(move || {
@@ -354,7 +358,7 @@ fn kmeans_scenarios(r: &mut Sm64, thorough: bool, v: &mut Vec<Scn>) {
         }
     }
     // (b) tie-heavy lattice data, three metrics, incremental fitting
-    for i in 0..(if thorough { 12 } else { 6 }) {
+    for i in 0..(if thorough { 30 } else { 12 }) {
         let n = 300 + r.below(600) as usize;
         let d = 1 + r.below(3) as usize;
         let k = 2 + r.below(5) as usize;
@@ -392,7 +396,7 @@ fn kmeans_scenarios(r: &mut Sm64, thorough: bool, v: &mut Vec<Scn>) {
 }
 
 fn gmm_scenarios(r: &mut Sm64, thorough: bool, v: &mut Vec<Scn>) {
-    for i in 0..(if thorough { 8 } else { 4 }) {
+    for i in 0..(if thorough { 16 } else { 6 }) {
         let (n, d, k) = (600 + r.below(1500) as usize, 2 + r.below(2) as usize, 2 + r.below(2) as usize);
         let dseed = r.next();
         let x = Arc::new(mat(&blobs(&mut Sm64::new(dseed), n, d, k, 1.0)));
@@ -418,7 +422,7 @@ fn gmm_scenarios(r: &mut Sm64, thorough: bool, v: &mut Vec<Scn>) {
 }
 
 fn density_scenarios(r: &mut Sm64, thorough: bool, v: &mut Vec<Scn>) {
-    for i in 0..(if thorough { 6 } else { 3 }) {
+    for i in 0..(if thorough { 12 } else { 4 }) {
         let n = 150 + r.below(250) as usize;
         let rows = if i % 2 == 0 { lattice(r, n, 2, -6, 6) } else { blobs(r, n, 2, 4, 0.8) };
         let x = Arc::new(mat(&rows));
@@ -442,7 +446,7 @@ fn regression_scenarios(r: &mut Sm64, thorough: bool, v: &mut Vec<Scn>) {
     use linfa_linear::{LinearRegression, TweedieRegressor};
     use linfa_pls::PlsRegression;
     use linfa_svm::Svm;
-    for i in 0..(if thorough { 6 } else { 3 }) {
+    for i in 0..(if thorough { 16 } else { 5 }) {
         let (n, p) = (60 + r.below(200) as usize, 3 + r.below(5) as usize);
         let dseed = r.next();
         let mut g = Sm64::new(dseed);
@@ -493,7 +497,7 @@ fn classification_scenarios(r: &mut Sm64, thorough: bool, v: &mut Vec<Scn>) {
     use linfa_ftrl::Ftrl;
     use linfa_logistic::{LogisticRegression, MultiLogisticRegression};
     use linfa_svm::Svm;
-    for i in 0..(if thorough { 6 } else { 3 }) {
+    for i in 0..(if thorough { 16 } else { 5 }) {
         let (n, p) = (90 + r.below(120) as usize, 2 + r.below(3) as usize);
         let dseed = r.next();
         let mut g = Sm64::new(dseed);
@@ -541,7 +545,7 @@ fn decomposition_scenarios(r: &mut Sm64, thorough: bool, v: &mut Vec<Scn>) {
     use linfa_ica::fast_ica::{FastIca, GFunc};
     use linfa_reduction::random_projection::{GaussianRandomProjection, SparseRandomProjection};
     use linfa_reduction::{DiffusionMap, Pca};
-    for i in 0..(if thorough { 6 } else { 3 }) {
+    for i in 0..(if thorough { 16 } else { 6 }) {
         let (n, p) = (80 + r.below(200) as usize, 6 + r.below(6) as usize);
         let dseed = r.next();
         let rows = blobs(&mut Sm64::new(dseed), n, p, 3, 1.5);
@@ -589,7 +593,7 @@ fn preprocessing_scenarios(r: &mut Sm64, thorough: bool, v: &mut Vec<Scn>) {
     use linfa_preprocessing::tf_idf_vectorization::TfIdfVectorizer;
     use linfa_preprocessing::whitening::Whitener;
     use linfa_preprocessing::CountVectorizer;
-    for i in 0..(if thorough { 4 } else { 2 }) {
+    for i in 0..(if thorough { 10 } else { 4 }) {
         let (n, p) = (40 + r.below(100) as usize, 2 + r.below(4) as usize);
         let dseed = r.next();
         let x = Arc::new(mat(&blobs(&mut Sm64::new(dseed), n, p, 2, 1.5)));
@@ -614,12 +618,12 @@ fn preprocessing_scenarios(r: &mut Sm64, thorough: bool, v: &mut Vec<Scn>) {
     }
     // text: equal-frequency words, vocabulary compared as word -> column content
     let words = ["alpha", "beta", "gamma", "delta", "eps", "zeta", "eta", "theta", "iota", "kappa", "la", "mu"];
-    for i in 0..(if thorough { 8 } else { 4 }) {
+    for i in 0..(if thorough { 30 } else { 10 }) {
         let nd = 4 + r.below(8) as usize;
         let docs: Vec<String> = (0..nd).map(|_| (0..(3 + r.below(9))).map(|_| r.pick(&words).to_string()).collect::<Vec<_>>().join(" ")).collect();
         let maxf = if i % 2 == 1 { Some(3 + r.below(4) as usize) } else { None };
         let ngram = 1 + (i % 2);
-        let desc = format!("{{\"estimator\": \"CountVectorizer/TfIdfVectorizer\", \"documents\": {:?}, \"max_features\": {:?}, \"n_gram_range\": [1, {}]}}", docs, maxf, ngram);
+        let desc = format!("{{\"estimator\": \"CountVectorizer/TfIdfVectorizer\", \"documents\": {:?}, \"max_features\": {}, \"n_gram_range\": [1, {}]}}", docs, jopt(&maxf), ngram);
         let f: Run = Box::new(move || {
             let da = Array1::from(docs.clone());
             let cv = CountVectorizer::params().n_gram_range(1, ngram).max_features(maxf).fit(&da).map_err(es)?;
@@ -637,7 +641,7 @@ fn preprocessing_scenarios(r: &mut Sm64, thorough: bool, v: &mut Vec<Scn>) {
 }
 
 fn dataset_scenarios(r: &mut Sm64, thorough: bool, v: &mut Vec<Scn>) {
-    for i in 0..(if thorough { 8 } else { 4 }) {
+    for i in 0..(if thorough { 30 } else { 10 }) {
         let n = 30 + r.below(60) as usize;
         let ncls = 3 + r.below(4) as usize;
         let labs = distinct_labels(r, ncls);
@@ -678,9 +682,9 @@ fn scenarios(seed: u64, thorough: bool) -> (Vec<Scn>, Vec<(Array2<f64>, Array1<u
     let mut r = Sm64::new(seed);
     let mut v = vec![];
     let (mut modal, mut nb, mut hier) = (vec![], vec![], vec![]);
-    tree_scenarios(&mut r.fork(), if thorough { 200 } else { 60 }, &mut v, &mut modal);
-    nb_scenarios(&mut r.fork(), if thorough { 120 } else { 40 }, &mut v, &mut nb);
-    hier_scenarios(&mut r.fork(), if thorough { 60 } else { 24 }, &mut v, &mut hier);
+    tree_scenarios(&mut r.fork(), if thorough { 1000 } else { 150 }, &mut v, &mut modal);
+    nb_scenarios(&mut r.fork(), if thorough { 600 } else { 90 }, &mut v, &mut nb);
+    hier_scenarios(&mut r.fork(), if thorough { 300 } else { 50 }, &mut v, &mut hier);
     kmeans_scenarios(&mut r.fork(), thorough, &mut v);
     gmm_scenarios(&mut r.fork(), thorough, &mut v);
     density_scenarios(&mut r.fork(), thorough, &mut v);
@@ -783,7 +787,13 @@ impl Distance<f64> for SpyL2 {
         let base = self.base.load(Ordering::Relaxed);
         if p >= base && p < base + self.bytes.load(Ordering::Relaxed) {
             let row = (p - base) / self.stride.load(Ordering::Relaxed);
-            self.log.lock().unwrap().push((rayon::current_thread_index().unwrap_or(usize::MAX), row));
+            let k = {
+                let mut l = self.log.lock().unwrap();
+                l.push((rayon::current_thread_index().unwrap_or(usize::MAX), row));
+                l.len()
+            };
+            // give the other workers of the pool time to steal: without it a small loop is finished by one thread
+            if k % 4 == 0 { std::thread::sleep(std::time::Duration::from_micros(40)); }
         }
         a.sq_l2_dist(&b).unwrap()
     }
@@ -829,6 +839,7 @@ fn main() {
                 Err(e) => writeln!(w, "E\t{}\t{}", id, e.replace(['\t', '\n'], " ")).unwrap(),
             }
         }
+        writeln!(w, "DONE").unwrap();
         return;
     }
     let mut out = Out::new(&args.out, args.shards, "C20.Corr", "case", args.only);
@@ -836,7 +847,7 @@ fn main() {
     let any_scn_wanted = args.only.map_or(true, |o| (o as usize) < scns.len());
 
     // fresh processes (fresh hash seeds, global pool sized by the environment), at most three at a time
-    let child_threads: Vec<usize> = if thorough { vec![1, 2, 3, 4, 5, 7, 8, 11, 16] } else { vec![1, 2, 3, 5, 8, 16] };
+    let child_threads: Vec<usize> = if thorough { (1..=16).collect() } else { vec![1, 2, 3, 5, 8, 16] };
     let exe = std::env::current_exe().unwrap();
     let spawn = |t: usize| {
         let mut cmd = std::process::Command::new(&exe);
@@ -857,7 +868,7 @@ fn main() {
     if any_scn_wanted { while pending.len() < 3 && !todo.is_empty() { pending.push(spawn(todo.remove(0))); } }
 
     // in-process repetitions: the global pool twice (fresh hash-map states), then pools of other sizes
-    let pool_sizes: Vec<usize> = if thorough { vec![1, 2, 3, 5, 7, 16] } else { vec![1, 3, 7] };
+    let pool_sizes: Vec<usize> = if thorough { vec![1, 2, 3, 5, 7, 11, 16] } else { vec![1, 2, 5, 16] };
     let pools: Vec<rayon::ThreadPool> = pool_sizes.iter().map(|t| rayon::ThreadPoolBuilder::new().num_threads(*t).build().unwrap()).collect();
     let mut all: Vec<Vec<Obs>> = scns.iter().map(|_| vec![]).collect();
     for rep in 0..(2 + pools.len()) {
@@ -877,6 +888,11 @@ fn main() {
         collect(std::mem::take(&mut pending));
     }
     for (t, text, ok) in &child_out {
+        if !*ok || !text.lines().any(|l| l == "DONE") {
+            // the machinery, not the property: a child that was killed or crashed outside a guarded call
+            eprintln!("child process with RAYON_NUM_THREADS={} did not finish (exit ok: {})", t, ok);
+            std::process::exit(3);
+        }
         let env = format!("fresh process, RAYON_NUM_THREADS={}", t);
         let mut per: BTreeMap<usize, Result<Vec<(String, u64, String)>, String>> = BTreeMap::new();
         for line in text.lines() {
@@ -943,7 +959,7 @@ fn main() {
             let coq = format!("CModal {} ({})%float {}", cn(id), clist(&entries, |e| format!("({}%N, {})", e.0, cf32(e.1))), cvecn(&impls));
             let tags = ["coq_modal", if tied > 1 { "tied_modal_class" } else { "unique_modal_class" }];
             out.bump(if tied > 1 { "modal_tied" } else { "modal_unique" });
-            let d2 = format!("{{\"case\": \"modal class of the root (max_depth 0)\", \"entries_in_map_order\": {:?}, \"root_predictions_of_{}_fits\": {:?}, \"dataset\": {}}}", entries, reps, impls, desc);
+            let d2 = format!("{{\"case\": \"modal class of the root (max_depth 0)\", \"entries_in_map_order\": [{}], \"root_predictions_of_{}_fits\": {:?}, \"dataset\": {}}}", entries.iter().map(|e| format!("[{}, {}]", e.0, e.1)).collect::<Vec<_>>().join(", "), reps, impls, desc);
             out.case(id, &coq, &tags, &d2, if tied > 1 { Some(fnv(d2.as_bytes())) } else { None });
         }
     }
@@ -1007,11 +1023,11 @@ fn main() {
         }
         let coq = format!("CHier {} {} {} {}", cn(id), cn(n as u64), clist(&entries, |e| format!("({}%N, {})", e.0, cvecn(&e.1))), clist(&impls, |p: &Vec<usize>| cvecn(p)));
         out.bump("hier_numbering");
-        let d2 = format!("{{\"case\": \"hierarchical cluster numbering\", \"surviving_clusters_in_shipped_order\": {:?}, \"dataset\": {}}}", entries, o.desc);
+        let d2 = format!("{{\"case\": \"hierarchical cluster numbering\", \"surviving_clusters_in_shipped_order\": [{}], \"dataset\": {}}}", entries.iter().map(|e| format!("[{}, {:?}]", e.0, e.1)).collect::<Vec<_>>().join(", "), o.desc);
         out.case(id, &coq, &["coq_hier"], &d2, Some(fnv(d2.as_bytes())));
     }
     // (4) label sets
-    for k in 0..(if thorough { 60 } else { 20 }) {
+    for k in 0..(if thorough { 120 } else { 40 }) {
         id += 1;
         let n = 5 + r.below(40) as usize;
         let labs = distinct_labels(&mut r, 2 + (k % 6));
@@ -1026,7 +1042,7 @@ fn main() {
         out.case(id, &coq, &["coq_labels"], &d2, if distinct_orders > 1 { Some(fnv(d2.as_bytes())) } else { None });
     }
     // (5) k-means with observed schedules
-    for k in 0..(if thorough { 90 } else { 30 }) {
+    for k in 0..(if thorough { 300 } else { 50 }) {
         id += 1;
         let n = 40 + r.below(if thorough { 360 } else { 160 }) as usize;
         let d = 1 + r.below(3) as usize;
@@ -1035,12 +1051,19 @@ fn main() {
         let nruns = 1 + (k % 2);
         let fuel = 1 + r.below(3);
         let tol = *r.pick(&[1e-4, 1e-2]);
-        let inits: Vec<Vec<Vec<f64>>> = (0..1).map(|_| { let mut idx: Vec<usize> = (0..n).collect(); r.shuffle(&mut idx); idx[..kk].iter().map(|i| rows[*i].clone()).collect() }).collect();
+        let kseed = r.below(1000);
+        // one run from precomputed centroids, or two restarts of the Random initialiser (its draws are replayed:
+        // rand::seq::index::sample on the cloned parameter generator, consecutive samples for consecutive runs)
+        let inits: Vec<Vec<Vec<f64>>> = if nruns == 1 {
+            (0..1).map(|_| { let mut idx: Vec<usize> = (0..n).collect(); r.shuffle(&mut idx); idx[..kk].iter().map(|i| rows[*i].clone()).collect() }).collect()
+        } else {
+            let mut g = Xoshiro256Plus::seed_from_u64(kseed);
+            (0..nruns).map(|_| rand::seq::index::sample(&mut g, n, kk).into_vec().iter().map(|&i| rows[i].clone()).collect()).collect()
+        };
         let psize = *r.pick(&[1usize, 2, 3, 4, 8, 16]);
         let nq = 20 + r.below(60) as usize;
         let q: Vec<Vec<f64>> = (0..nq).map(|_| if r.chance(0.5) { rows[r.below(n as u64) as usize].clone() } else { (0..d).map(|_| r.range(-8, 8) as f64 * 0.5).collect() }).collect();
         if !out.wanted(id) { continue; }
-        let _ = nruns;
         let x = mat(&rows);
         let qa = mat(&q);
         let spy = SpyL2::new();
@@ -1051,7 +1074,8 @@ fn main() {
         let spy2 = spy.clone();
         let fitted = pool.install(|| {
             guarded(std::panic::AssertUnwindSafe(|| {
-                KMeans::params_with(kk, Xoshiro256Plus::seed_from_u64(1), spy2).init_method(KMeansInit::Precomputed(init_arr)).max_n_iterations(fuel).tolerance(tol).fit(&ds)
+                let im = if nruns == 1 { KMeansInit::Precomputed(init_arr) } else { KMeansInit::Random };
+                KMeans::params_with(kk, Xoshiro256Plus::seed_from_u64(kseed), spy2).init_method(im).n_runs(nruns).max_n_iterations(fuel).tolerance(tol).fit(&ds)
             }))
         });
         let m = match fitted { Ok(Ok(m)) => m, _ => { out.bump("par_fit_failed"); continue; } };
@@ -1069,7 +1093,8 @@ fn main() {
         for t in [1usize, 5] {
             let p2 = rayon::ThreadPoolBuilder::new().num_threads(t).build().unwrap();
             let ia = mat(&inits[0]);
-            let m2 = p2.install(|| KMeans::params_with(kk, Xoshiro256Plus::seed_from_u64(1), L2Dist).init_method(KMeansInit::Precomputed(ia)).max_n_iterations(fuel).tolerance(tol).fit(&ds));
+            let im = if nruns == 1 { KMeansInit::Precomputed(ia) } else { KMeansInit::Random };
+            let m2 = p2.install(|| KMeans::params_with(kk, Xoshiro256Plus::seed_from_u64(kseed), L2Dist).init_method(im).n_runs(nruns).max_n_iterations(fuel).tolerance(tol).fit(&ds));
             if let Ok(m2) = m2 {
                 if a2(m2.centroids()) != a2(m.centroids()) || hb(m2.inertia()) != hb(m.inertia()) || a1(m2.cluster_count()) != a1(m.cluster_count()) { differs = Some(t); }
             }
@@ -1083,7 +1108,8 @@ fn main() {
         out.bump(&format!("par_pool_{}", psize));
         out.bump(&format!("par_threads_seen_{}", threads.min(4)));
         out.bump(if identity { "par_schedule_identity" } else { "par_schedule_permuted" });
-        let d2 = format!("{{\"case\": \"k-means with the task schedule observed through a spying distance\", \"n\": {}, \"d\": {}, \"k\": {}, \"max_n_iterations\": {}, \"tolerance\": {:e}, \"pool\": {}, \"threads_seen\": {}, \"parallel_loops_in_fit\": {}, \"init\": {:?}, \"X\": {:?}}}", n, d, kk, fuel, tol, psize, threads, scheds.len(), inits[0], rows);
+        out.bump(&format!("par_restarts_{}", nruns));
+        let d2 = format!("{{\"case\": \"k-means with the task schedule observed through a spying distance\", \"n\": {}, \"d\": {}, \"k\": {}, \"max_n_iterations\": {}, \"tolerance\": {:e}, \"pool\": {}, \"threads_seen\": {}, \"parallel_loops_in_fit\": {}, \"n_runs\": {}, \"rng_seed\": {}, \"initial_centroids_per_run\": {:?}, \"X\": {:?}}}", n, d, kk, fuel, tol, psize, threads, scheds.len(), nruns, kseed, inits, rows);
         let tags = ["coq_par"];
         if let Some(t) = differs { out.rust_fail(id, 2, &tags, &format!("k-means fit on a pool of {} thread(s) differs from the fit on a pool of {} thread(s)", t, psize), &d2); }
         out.case(id, &coq, &tags, &d2, if !identity && threads > 1 { Some(fnv(d2.as_bytes())) } else { None });
@@ -1118,5 +1144,5 @@ fn main() {
         }
     }
     out.bump_by("child_processes", child_out.len() as u64);
-    out.finish("scenario = estimator x generated dataset x parameters (tree / naive Bayes / hierarchical inputs are tie-heavy: duplicated rows with conflicting labels, identical classes, lattice distances); every scenario is run twice on the global pool, on pools of other sizes and in fresh processes with RAYON_NUM_THREADS in {1,2,3,5,8,16}; all learned quantities and predictions are compared bit for bit; Coq cases: observed hash-map entry lists and k-means task schedules; a case is non-trivial when it has ties / several threads / a permuted schedule; distinct = distinct scenario descriptions");
+    out.finish("scenario = estimator x generated dataset x parameters (tree / naive Bayes / hierarchical inputs are tie-heavy: duplicated rows with conflicting labels, identical classes, lattice distances); every scenario is run twice on the global pool, on pools of 1/2/5/16 threads (thorough: 1,2,3,5,7,11,16) and in fresh processes with RAYON_NUM_THREADS in {1,2,3,5,8,16} (thorough: 1..16); all learned quantities and predictions are compared bit for bit; Coq cases: observed hash-map entry lists and k-means task schedules; a case is non-trivial when it has ties / several threads / a permuted schedule; distinct = distinct scenario descriptions");
 }
